@@ -63,7 +63,7 @@ def check_one(m):
     with tempfile.TemporaryDirectory(dir=D) as td:
         f = os.path.join(td, os.path.basename(m["file"]))
         open(f, "wb").write(mutated(m))
-        p = subprocess.run([os.path.join(VERIF, "bin/xpcheck"), "-property", ",".join(m["props"]), "-tier", "quick", "-repo", REPO,
+        p = subprocess.run([os.environ.get("XPCHECK", os.path.join(VERIF, "bin/xpcheck")), "-property", ",".join(m["props"]), "-tier", "quick", "-repo", REPO,
                             "-evidence-dir", os.path.join(td, "ev"), "-known", os.path.join(VERIF, "known_findings.json"),
                             "-overlay", f'{m["file"]}={f}'], capture_output=True, text=True, env=ENV)
         out = p.stdout + p.stderr
@@ -107,12 +107,16 @@ def main():
         print("to test:", len(todo), flush=True)
         run_phase(todo, test_one, "test.jsonl", a.j)
     elif a.phase == "check":
-        cr = load_results("check.jsonl")
+        outn = os.environ.get("CHECK_OUT", "check.jsonl")
+        cr = load_results(outn)
         todo = [m for m in ms if tr.get(m["id"], {}).get("status") == "survived" and m["id"] not in cr]
+        if os.environ.get("ONLY_UNDETECTED"):
+            prev = load_results("check.jsonl")
+            todo = [m for m in todo if prev.get(m["id"], {}).get("status") == "undetected"]
         print("to check:", len(todo), flush=True)
-        run_phase(todo, check_one, "check.jsonl", a.j)
+        run_phase(todo, check_one, outn, a.j)
     else:
-        cr = load_results("check.jsonl")
+        cr = load_results(os.environ.get("CHECK_OUT", "check.jsonl"))
         c = collections.Counter(tr[m["id"]]["status"] if m["id"] in tr else "untested" for m in ms)
         print("test phase:", dict(c))
         c2 = collections.Counter(cr[m["id"]]["status"] for m in ms if m["id"] in cr)
